@@ -237,7 +237,7 @@ def run_part(ctx):
 
     # ---- base files ---------------------------------------------------------------------------
     seed0 = rng.below(2 ** 30)
-    nbase = 36 if quick else 900
+    nbase = 30 if quick else 250
     specs = []
     for k in range(nbase):
         prof = [0, 0, 2, 4, 1][k % 5]
@@ -258,18 +258,18 @@ def run_part(ctx):
                             inputs.append(('corpus:' + fn, d))
                             if len(w) == 3:
                                 probes[d] = (w[1], w[2])
-    budget = 420 if quick else 1500
+    budget = 380 if quick else 700
     for f in files:
         data = bytes.fromhex(f['hex'])
         toks = parse_toks(f['toks'])
         assert build(toks) == data, 'token stream does not rebuild the file'
-        if len(data) <= (260 if quick else 600):
+        if len(data) <= (260 if quick else 400):
             for n in range(len(data)):
                 inputs.append(('prefix', data[:n]))
         else:
             for _ in range(60):
                 inputs.append(('prefix', data[:rng.below(len(data))]))
-        inputs += byte_mutations(rng, data, 60 if quick else 300)
+        inputs += byte_mutations(rng, data, 50 if quick else 150)
         inputs += structure_mutations(rng, toks, budget, 2 if quick else 12)
     tiny = [d for d, _ in base.tiny_files()]
     for d in tiny[::3]:
@@ -290,6 +290,8 @@ def run_part(ctx):
 
     # a few inputs with an entity filter
     def rt_for(i):
+        if inputs[i][1] in probes:
+            return 7
         return 7 if i % 16 else [0, 1, 2, 4, 3, 5, 6, 7][(i // 16) % 8]
 
     for bname, aflag, hbin in builds:
